@@ -250,8 +250,12 @@ def readded_rows(run):
   the failed bundle."""
   removed, out = set(), set()
   for d in run.docs:
-    if not d.get('completed') or d.get('phase') != 'actions':
+    if d.get('phase') != 'actions':
       continue
+    if not d.get('completed'):
+      # the re-adding BulkAddRecord itself may be the action that failed, once its undo is in the list
+      if not (d['name'] == 'BulkAddRecord' and any(st.startswith('undo') for st, _ in d['steps'])):
+        continue
     if d['name'] == 'BulkRemoveRecord':
       removed |= {(d['args'][0], r) for r in d['args'][1]}
     elif d['name'] == 'BulkAddRecord':
@@ -345,7 +349,24 @@ def classify(loc, run):
   pend = run.pending | set(loc['calc_cells'])
   def is_formula(t, c):
     return bool((run.before_schema.get(t, {}).get(c) or ('', False))[1])
+  nonexistent = None
+  if not injected and isinstance(run.raised, AssertionError) and 'for non-existent record #' in str(run.raised):
+    try:
+      nonexistent = int(str(run.raised).split('#')[-1].rstrip("')\" "))
+    except ValueError:
+      nonexistent = None
+  if doc == 'BulkRemoveRecord' and loc['point'] == 'sum:remove_records' and loc['undos'] >= 1 and pend and \
+     nonexistent is not None and nonexistent in loc.get('doc_rows', []):
+    # the failure strikes between undo.append and summary.remove_records of a BulkRemoveRecord whose row has a pending
+    # calc delta: the summary still believes the row is there and the flush APPENDS the restoring update; it runs
+    # first, the row is gone, the replay fails its assert and _undo_to_checkpoint raises
+    return 'BulkRemoveRecord-crash-before-summary-mark'
   readd = readded_rows(run)
+  if readd and pend and nonexistent is not None and \
+     any(r == nonexistent and t == loc.get('doc_table', t) for (t, r) in readd):
+    # same root cause as the rule below, seen inside the re-adding BulkAddRecord: the appended restoring update runs
+    # before the undo of the removal has brought the row back, fails its assert, and the rollback raises
+    return 'recomputed-cell-of-readded-row-not-restored'
   if readd and run.diff_rows and \
      set(run.diff_cells) == {(t, c) for (t, c, _r) in run.diff_rows} and \
      pend and all((t, r) in readd and is_formula(t, c) for (t, c, r) in run.diff_rows) and \
@@ -790,6 +811,7 @@ def search(ctx):
       v = check_fault_run(ctx, log, bundle, base, idx, stats)
       if v is not None:
         report(ctx, v, seen_kinds)
+  directed_family(ctx, stats, seen_kinds)
   # natural failures found by the shared history run (harness/histrun.py), re-run under the recorder
   try:
     from harness import histrun
@@ -819,6 +841,47 @@ def search(ctx):
   for i in bad[:8]:
     ctx.broken('correspondence:Model/Rollback.v does not predict the outcome of the engine\'s rollback', cases[i][1])
   ctx.extra['tie_rollback_mismatches'] = len(bad)
+
+
+DIRECTED_LOG = [
+  [['AddTable', 'T', [{'id': 'A', 'type': 'Int', 'isFormula': False},
+                      {'id': 'B', 'type': 'Int', 'isFormula': True, 'formula': '$A*2'},
+                      {'id': 'C', 'type': 'Int', 'isFormula': False}]]],
+  [['AddRecord', 'T', 1, {'A': 1}], ['AddRecord', 'T', 2, {'A': 2}]],
+]
+DIRECTED_PRE = [['UpdateRecord', 'T', 2, {'A': 10}], ['CopyFromColumn', 'T', 'B', 'C', None]]
+DIRECTED_FOLLOWUPS = [
+  ['RenameColumn', 'T', 'B', 'N'], ['RemoveColumn', 'T', 'B'], ['RenameTable', 'T', 'T5'], ['RemoveTable', 'T'],
+  ['RenameColumn', 'T', 'A', 'N'], ['RemoveColumn', 'T', 'A'], ['RemoveRecord', 'T', 2], ['AddRecord', 'T', 3, {'A': 7}],
+  ['AddColumn', 'T', 'E', {'type': 'Int', 'isFormula': False}], ['UpdateRecord', 'T', 1, {'A': 5}],
+  ['CopyFromColumn', 'T', 'B', 'C', None], ['CopyFromColumn', 'T', 'N', 'C', None], ['CopyFromColumn', 'T5', 'B', 'C', None],
+  ['RemoveRecord', 'T5', 2], ['RenameColumn', 'T5', 'B', 'N'], ['RemoveColumn', 'T5', 'B'], ['RenameTable', 'T5', 'T'],
+  ['RenameColumn', 'T', 'N', 'B'], ['AddColumn', 'T', 'B', {'type': 'Int', 'isFormula': True, 'formula': '$A*3'}],
+  ['RemoveTable', 'T5'], ['ModifyColumn', 'T', 'B', {'formula': '$A*5'}], ['ModifyColumn', 'T', 'B', {'isFormula': False}],
+  ['ModifyColumn', 'T', 'B', {'type': 'Text'}], ['AddRecord', 'T', 2, {'A': 8}],
+]
+
+
+def directed_family(ctx, stats, seen_kinds):
+  """The bundles of Proofs/Rollback_bounded.v on the real engine (plus ModifyColumn): a forced recalculation, then up
+  to three row / column / table actions on the recomputed column, its table or their renamed successors, then an
+  action that raises.  quick: a seeded sample; thorough: every sequence of length <= 2 and a sample of length 3."""
+  n = len(DIRECTED_FOLLOWUPS)
+  combos = []
+  if ctx.tier == 'quick':
+    for _ in range(10):
+      combos.append([ctx.rng.randrange(n) for _ in range(ctx.rng.randint(1, 3))])
+  else:
+    combos = [[i] for i in range(n)] + [[i, j] for i in range(n) for j in range(n)]
+    for _ in range(400):
+      combos.append([ctx.rng.randrange(n) for _ in range(3)])
+  for combo in combos:
+    bundle = copy.deepcopy(DIRECTED_PRE) + [copy.deepcopy(DIRECTED_FOLLOWUPS[i]) for i in combo] + \
+             [['RemoveRecord', 'NoSuchTable', 1]]
+    stats['directed-bundles'] += 1
+    v = natural_failure(ctx, copy.deepcopy(DIRECTED_LOG), bundle, stats)
+    if v is not None:
+      report(ctx, v, seen_kinds)
 
 
 def report(ctx, v, seen_kinds):
